@@ -12,6 +12,7 @@ TRUSTED = [
 ASSUME = [
     "requests shorter than 2^31 bytes (C int lengths); the registered generator is the harness's gen(start,len)[i] = (start+i) mod 256, refusing len < 0 or > 4 MiB with std::length_error",
     "one connection at a time (the server has a single connection socket); a stalled path parks the server for good — stated, not a defect",
+    "clients are well-behaved towards TCP: the simulated TCP has neither reset nor timeout, so a client that close()s before it has received every response byte the server still has to write — or whose socket object is destroyed (~socket() sends no end-of-file at all) — can leave the server blocked for ever in a write whose acknowledgements never come; it then never reads the end-of-file, never closes and never re-arms accept. That is a limitation of the transport model, outside C16's statement: the monitor makes no claim about clients queued behind such a client. Likewise, with scripted droppers or small finite queues a lost segment may never be retransmitted (retransmission is ACK-driven): on such networks only the safety clauses (no wrong byte, no unexpected end-of-file, refusal after stop) are evaluated, completeness clauses only on loss-free networks",
     "the trace monitor abstains (\"unclassified\") on requests that are neither clearly well-formed nor clearly malformed from the statement alone (e.g. a request line with 4 tokens); the correspondence leg still covers them",
 ]
 
